@@ -1,0 +1,23 @@
+//go:build verif
+
+package parser
+
+// Exports of the textual pre-passes for the verification harness (byte-for-byte correspondence
+// with the Lean models).
+
+func VerifStripNonMSOComments(s string) string       { return stripNonMSOComments(s) }
+func VerifPreprocessHTMLEntities(s string) string    { return preprocessHTMLEntities(s) }
+func VerifEscapeAttributeAmpersands(s string) string { return escapeAttributeAmpersands(s) }
+func VerifWrapMJTextContent(s string) string         { return wrapMJTextContent(s) }
+func VerifFindMjmlTagIndex(s string) int             { return findMjmlTagIndex(s) }
+func VerifIsMSOConditionalComment(s string) bool     { return isMSOConditionalComment(s) }
+
+// VerifLines returns the line number the lookup reports for every offset in offs (queried in the given order).
+func VerifLines(content string, offs []int64) []int {
+	ll := newLineLookup([]byte(content))
+	out := make([]int, len(offs))
+	for i, o := range offs {
+		out[i] = ll.Line(o)
+	}
+	return out
+}
